@@ -14,6 +14,7 @@ MAP = {
     "g3-c15-extend-default-min": ["C15"],
     "g4-c16a": ["C16"], "g4-c16b": ["C16"], "g4-c16c": ["C16"], "g4-c16d": ["C16"], "g4-c17a": ["C17"], "g4-c17b": ["C17"],
     "g4-c18a": ["C18"], "g4-c18b": ["C18"], "g4-c18c": ["C18"], "g4-c19a": ["C19"], "g4-c19b": ["C19"], "g4-c19c": ["C19"],
+    "revert-D12": ["C12"],
     "g4-c19d": ["C19"], "g4-c19e": ["C19"], "g4-c20a": ["C20"], "g4-c20b": ["C20"], "g4-c20c": ["C20"], "g4-c20d": ["C20"],
 }
 rows = []
